@@ -159,7 +159,7 @@ class Fcvtwus(RiscvInstruction):
 
 class FLw(RiscvInstruction):
     rd = Operand("rd", RiscvFRegister, write=True)
-    offset = Operand("offset", int)
+    offset = Operand("offset", int, signed=True)
     rs1 = Operand("rs1", RiscvRegister, read=True)
     syntax = Syntax(["flw", " ", rd, ",", " ", offset, "(", rs1, ")"])
     fprel = False
@@ -175,7 +175,7 @@ class FLw(RiscvInstruction):
 
 class FSw(RiscvInstruction):
     rs2 = Operand("rs2", RiscvFRegister, read=True)
-    offset = Operand("offset", int)
+    offset = Operand("offset", int, signed=True)
     rs1 = Operand("rs1", RiscvRegister, read=True)
     syntax = Syntax(["fsw", " ", rs2, ",", " ", offset, "(", rs1, ")"])
     tokens = [RiscvSToken]
